@@ -16,9 +16,11 @@
 #include <fstream>
 #include <iomanip>
 #include <iostream>
+#include <limits>
 #include <sstream>
 #include <cassert>
 #include <algorithm>
+#include <cmath>
 #include <cstdlib>
 #include <functional>
 #include <numeric>
@@ -136,6 +138,25 @@ void read_affinity_data(const boost::filesystem::path &filename,
                         std::vector<double> &w);
 
 /*!
+ * @brief Integer part of the likelihood shown in the header of the output files
+ *
+ * Converting a double outside the range of int (or NaN) to int is undefined:
+ * the value is saturated instead (NaN is shown as the lowest int).
+ */
+inline int likelihood_for_header(const double &L2)
+{
+    if (std::isnan(L2) || L2 <= static_cast<double>(std::numeric_limits<int>::min()))
+    {
+        return std::numeric_limits<int>::min();
+    }
+    if (L2 >= static_cast<double>(std::numeric_limits<int>::max()))
+    {
+        return std::numeric_limits<int>::max();
+    }
+    return static_cast<int>(L2);
+}
+
+/*!
  * @brief Write affinity file
  *
  * @tparam weight_t Affinity values type
@@ -159,7 +180,7 @@ void write_affinity_file(const boost::filesystem::path &output_filename,
     }
 
     // Likelihood and number of realizations
-    stream_out << "# Max likelihood= " << static_cast<int>(results.max_L2())
+    stream_out << "# Max likelihood= " << likelihood_for_header(results.max_L2())
                << " N_real=" << results.nof_realizations << std::endl;
 
     stream_out << std::setprecision(6);
@@ -227,7 +248,7 @@ void write_membership_file(const boost::filesystem::path &output_filename,
     }
 
     // Likelihood and number of realizations
-    stream_out << "# Max likelihood= " << static_cast<int>(results.max_L2())
+    stream_out << "# Max likelihood= " << likelihood_for_header(results.max_L2())
                << " N_real=" << results.nof_realizations << std::endl;
 
     stream_out << std::setprecision(6);
